@@ -527,6 +527,29 @@ example : (runFile {} ["s"] ["s"] exChroms).toOption.isNone = true ∧
     (match runFile {} ["s"] ["s"] exChroms with
       | .error e => decide (e = .chromNotInBam "chr2") | .ok _ => false) = true := by decide
 
+/-- **restricted_genotype_is_own_genotype.** Every variant that reaches re-alignment in the reader is paired with the
+genotype of its OWN record (same index of the unfiltered table), whatever records (symbolic ALT alleles) are skipped in
+between, and every non-symbolic variant of the table reaches re-alignment with its own genotype. -/
+theorem restricted_genotype_is_own_genotype (variants : List TabVar) (genotypes : List (List Nat)) :
+    (∀ p ∈ realignPairs variants genotypes, p.1.symbolic = false ∧
+      ∃ i : Nat, variants[i]? = some p.1 ∧ genotypes[i]? = some p.2) ∧
+    (∀ (i : Nat) v g, variants[i]? = some v → genotypes[i]? = some g → v.symbolic = false →
+      (v, g) ∈ realignPairs variants genotypes) := by
+  constructor
+  · intro p hp
+    simp only [realignPairs, List.mem_filter, Bool.not_eq_true'] at hp
+    obtain ⟨hm, hs⟩ := hp
+    obtain ⟨i, hi⟩ := List.getElem?_of_mem hm
+    exact ⟨hs, i, (List.getElem?_zip_eq_some.1 hi)⟩
+  · intro i v g hv hg hs
+    simp only [realignPairs, List.mem_filter, Bool.not_eq_true']
+    exact ⟨List.mem_of_getElem? (List.getElem?_zip_eq_some.2 ⟨hv, hg⟩), hs⟩
+
+/-- witness for the filter-one-list change (seed C17-h): `<DEL>` called `1/1` in front of a heterozygous SNV — as coded the
+SNV is re-aligned under its own `0/1`, with the variant list filtered alone it inherits `1/1` -/
+example : realignPairs [⟨10, true⟩, ⟨20, false⟩] [[1, 1], [1, 0]] = [(⟨20, false⟩, [1, 0])] ∧
+    realignPairsShifted [⟨10, true⟩, ⟨20, false⟩] [[1, 1], [1, 0]] = [(⟨20, false⟩, [1, 1])] := by decide
+
 /-- **run_error_exits.** The error exits of `run_haplotagphase` in the order of the code: no `--reference`;
 `--ignore-read-groups` on a multi-sample VCF; then, chromosome by chromosome, a chromosome missing from the FASTA stops
 the run even when `--chromosome` does not request it. -/
